@@ -71,7 +71,7 @@ impl Cluster {
         (0..self.n()).filter(|i| !self.byz.contains(i)).collect()
     }
     fn leader(&self, view: u64) -> usize {
-        (view % self.n() as u64) as usize
+        self.w.schedule.index(&self.w.schedule.view_leader(validator::ViewNumber(view))).unwrap()
     }
 
     fn abs_msg(&mut self, m: &validator::ConsensusMsg) -> Value {
@@ -443,10 +443,12 @@ impl NetSim {
     fn run_case(&self, case_idx: usize, rng: &mut StdRng, steps: usize, out: &mut Out) {
         let _g = self.rt.enter();
         // committee with at most f weight Byzantine
-        let weights: Vec<u64> = match rng.gen_range(0..4) {
-            0 => vec![1; 6],
-            1 => vec![1; 7],
-            2 => vec![2, 1, 1, 1, 1, 1, 2, 1, 1],
+        let weights: Vec<u64> = match rng.gen_range(0..8) {
+            0 | 1 | 2 => vec![1; 6],
+            3 => vec![1; 7],
+            4 => vec![2, 1, 1, 1, 1, 1],
+            5 => vec![1; 4], // f = 0: crashes, loss and partitions only
+            6 => vec![2, 1, 1, 1, 1, 1, 2, 1, 1],
             _ => vec![1; 11],
         };
         let n = weights.len();
@@ -462,14 +464,32 @@ impl NetSim {
             }
         }
         let wseed = rng.gen_range(0..100000u64);
-        let w = World::new(wseed, &weights, &vec![true; n], sel(), 0);
+        // agreement runs (no progress bound to meet): every third case uses a leader schedule other than "everybody,
+        // round-robin, every view" — a subset of eligible leaders, a rotation period, weighted selection
+        let (leaders, sel_) = if !self.progress && case_idx % 3 == 0 {
+            let mut l: Vec<bool> = (0..n).map(|_| rng.gen_bool(0.6)).collect();
+            if !l.iter().any(|x| *x) {
+                l[rng.gen_range(0..n)] = true;
+            }
+            let mode = if rng.gen_bool(0.5) { validator::LeaderSelectionMode::Weighted } else { validator::LeaderSelectionMode::RoundRobin };
+            (l, validator::LeaderSelection { frequency: *[1u64, 2, 3].choose(rng).unwrap(), mode })
+        } else {
+            (vec![true; n], sel())
+        };
+        let varied = leaders.iter().any(|x| !*x) || sel_ != sel();
+        let w = World::new(wseed, &weights, &leaders, sel_, 0);
+        let leader_table: Vec<usize> = (0..512u64).map(|v| w.schedule.index(&w.schedule.view_leader(validator::ViewNumber(v))).unwrap()).collect();
         let mut c = Cluster { w, weights: weights.clone(), byz: byz.clone(), rigs: BTreeMap::new(), mons: BTreeMap::new(), pool: vec![], proposals: VecDeque::new(), seen_qcs: vec![], fresh: 0, unmodelled: false };
         for i in c.correct() {
             let rig = self.rt.block_on(Rig::new(&c.w, i));
             c.rigs.insert(i, rig);
             c.mons.insert(i, Monitor::default());
             out.emit(
-                json!({"op":"init","reset": i == c.correct()[0],"rid":i,"weights":weights,"first":0,"wseed":wseed,"me":i,"max_payload":MAX_PAYLOAD,"byz":byz}),
+                if varied {
+                    json!({"op":"init","reset": i == c.correct()[0],"rid":i,"weights":weights,"first":0,"wseed":wseed,"me":i,"max_payload":MAX_PAYLOAD,"byz":byz,"leader_table":leader_table})
+                } else {
+                    json!({"op":"init","reset": i == c.correct()[0],"rid":i,"weights":weights,"first":0,"wseed":wseed,"me":i,"max_payload":MAX_PAYLOAD,"byz":byz})
+                },
                 json!({"class":"init"}),
             );
         }
@@ -482,43 +502,95 @@ impl NetSim {
         // ---- adversarial prefix
         let adv_steps = if self.progress { steps / 2 } else { steps };
         let mut partition: Option<Vec<usize>> = None;
+        let mut calm = true;
+        let mut step_no = 0usize;
         for _ in 0..adv_steps {
+            // the prefix alternates between calm phases (timers rarely fire, little loss: views complete and blocks get
+            // committed) and storms (timers, loss, restarts, partitions, Byzantine traffic), 250 steps each
+            if step_no % 250 == 0 {
+                calm = rng.gen_bool(0.55);
+                if calm {
+                    partition = None;
+                }
+                out.count(if calm { "phase=calm" } else { "phase=storm" });
+            }
+            step_no += 1;
+            let (p_tick, p_byz, p_restart, p_part, p_loss) = if calm { (1, 3, 0, 0, 0.02) } else { (7, 9, 3, 3, 0.14) };
+            // a leader that entered a view proposes soon (its proposer task runs concurrently with the replica)
+            if !c.proposals.is_empty() && rng.gen_bool(if calm { 0.5 } else { 0.2 }) {
+                self.propose(&mut c, out);
+                continue;
+            }
             let roll = rng.gen_range(0..100);
-            if roll < 55 && !c.pool.is_empty() {
-                // deliver a random pending packet (reordering), maybe duplicate it, maybe drop it
-                let k = rng.gen_range(0..c.pool.len());
-                let p = if rng.gen_bool(0.15) { c.pool[k].clone() } else { c.pool.swap_remove(k) };
-                if rng.gen_bool(0.12) {
-                    continue; // lost
-                }
-                if let Some(part) = &partition {
-                    if part.contains(&p.to) != part.contains(&p.from) && rng.gen_bool(0.9) {
-                        continue; // partitioned
-                    }
-                }
-                self.step(&mut c, p.to, json!({"op":"msg","from":p.from,"sig_ok":p.sig_ok,"msg":p.msg}), out);
-            } else if roll < 63 {
+            let mut edge = p_tick;
+            if roll < edge {
                 let i = *correct.choose(rng).unwrap();
                 self.step(&mut c, i, json!({"op":"tick"}), out);
                 // the timer of the same replica expires again before anything else happens (re-send path)
                 if rng.gen_bool(0.35) {
                     self.step(&mut c, i, json!({"op":"tick"}), out);
                 }
-            } else if roll < 70 {
-                self.propose(&mut c, out);
-            } else if roll < 85 {
+                continue;
+            }
+            edge += p_byz;
+            if roll < edge {
                 self.byzantine(&mut c, rng);
-            } else if roll < 90 {
+                continue;
+            }
+            edge += p_restart;
+            if roll < edge {
                 let i = *correct.choose(rng).unwrap();
                 self.step(&mut c, i, json!({"op":"restart"}), out);
-            } else if roll < 94 {
+                continue;
+            }
+            edge += p_part;
+            if roll < edge {
                 partition = if partition.is_some() { None } else { let k = rng.gen_range(1..n); Some((0..n).filter(|_| rng.gen_bool(k as f64 / n as f64)).collect()) };
-            } else if roll < 97 {
+                continue;
+            }
+            edge += 2;
+            if roll < edge {
                 let i = *correct.choose(rng).unwrap();
                 c.sync_blocks(i);
                 settle(&self.rt);
-            } else if c.pool.len() > 400 {
-                c.pool.drain(..200);
+                continue;
+            }
+            edge += 1;
+            if roll < edge {
+                if c.pool.len() > 400 {
+                    c.pool.drain(..200);
+                }
+                continue;
+            }
+            if c.pool.is_empty() {
+                // nothing in flight: somebody's timer fires
+                let i = *correct.choose(rng).unwrap();
+                self.step(&mut c, i, json!({"op":"tick"}), out);
+                continue;
+            }
+            // deliver a pending packet — mostly a recent one, sometimes any (reordering across views) —, maybe duplicate
+            // it, maybe drop it
+            let len = c.pool.len();
+            let k = if rng.gen_bool(0.75) { len - 1 - rng.gen_range(0..len.min(3 * n)) } else { rng.gen_range(0..len) };
+            let p = if rng.gen_bool(0.1) { c.pool[k].clone() } else { c.pool.swap_remove(k) };
+            if rng.gen_bool(p_loss) {
+                continue; // lost
+            }
+            if let Some(part) = &partition {
+                if part.contains(&p.to) != part.contains(&p.from) && rng.gen_bool(0.9) {
+                    continue; // partitioned
+                }
+            }
+            self.step(&mut c, p.to, json!({"op":"msg","from":p.from,"sig_ok":p.sig_ok,"msg":p.msg}), out);
+        }
+        // how far the case got (evidence: the agreement monitor is only as good as the number of blocks committed)
+        {
+            let heads: Vec<u64> = c.rigs.values().map(|r| r.engine.persisted_next()).collect();
+            let views: Vec<u64> = c.rigs.values().map(|r| r.snapshot().view.0).collect();
+            out.count(&format!("prefix_max_committed_blocks={}", heads.iter().max().copied().unwrap_or(0).min(10)));
+            out.count(&format!("prefix_max_view={}", (views.iter().max().copied().unwrap_or(0) / 5 * 5).min(40)));
+            if varied {
+                out.count("leader_schedule_varied");
             }
         }
         if !self.progress {
@@ -653,9 +725,18 @@ impl Prop for NetSim {
     }
     fn adaptive(&mut self, opts: &Opts, out: &mut Out) -> bool {
         let mut rng = opts.rng();
-        let cases = (opts.n / 150).max(2);
+        // agreement runs: few long cases (a view costs about n² deliveries; 2000 scheduler steps reach 10-20 views with
+        // 6 validators); progress runs: many short adversarial prefixes (300 steps), each followed by an episode and the
+        // fair suffix
+        let (steps, per_case) = if self.progress { (600, 150) } else { (2000, 2000) };
+        let cases = (opts.n / per_case).max(2);
         for k in 0..cases {
-            self.run_case(k + 1, &mut rng, 150, out);
+            // op budget (deterministic): large committees make long cases; do not start another one beyond 6 ops per unit of n
+            if k >= 2 && out.n_ops > opts.n * 6 {
+                out.count("cases_skipped_by_op_budget");
+                continue;
+            }
+            self.run_case(k + 1, &mut rng, steps, out);
             if self.stalled.get() {
                 break;
             }
